@@ -15,7 +15,7 @@ EXPLANATION = ("every function listed under functions_under_contract is verified
                "checked, so this verdict depends only on the structural contract. Kernels not yet under contract (NOT part of this claim): "
                + "; ".join(NOT_YET))
 
-SAFE_FILES = ("closest.c", "cdiffraction.c", "blobs.c", "connectedpixels.c", "sparse_image.c")
+SAFE_FILES = ("closest.c", "cdiffraction.c", "blobs.c", "connectedpixels.c", "sparse_image.c", "darkflat.c", "splat.c", "localmaxlabel.c")
 
 
 def units(ctx):
